@@ -27,7 +27,8 @@ RULE = (
     "with its time stamp / add a directory nested in or enclosing a shared one / remove the outer or inner one of "
     "two nested shares / share a removed directory again; spellings with trailing slash and '/./'); two environment "
     "choices: 'the cyclic garbage collector ran after each removal' (bit) and explicit collector runs inside the "
-    "history (both are real executions, the collector is otherwise off during a case); then 1..6 queries of 1..4 "
+    "history (both are real executions, the collector is otherwise off during a case); in 30% of the cases 1..4 "
+    "files vanish from disk after the history without a rescan; then 1..6 queries of 1..4 "
     "terms (include, -exclude, *wildcard; whole words, suffixes, inner substrings, punctuated spans cut out of real "
     "paths incl. the backslash, spans with one punctuation character changed, foreign words; random case; optional "
     "username) with max_results 1..100. One drawn integer seeds a deterministic builder; in half of the cases "
@@ -40,9 +41,13 @@ RULE = (
     "disk and in the last scan of their directory MUST be returned iff they match; files that differ between disk "
     "and last scan, or whose path relative to the shared directory changed by re-parenting since their scan, MAY be "
     "returned if they match under one reading. Result: no duplicates, <= max_results, superset of MUST when below "
-    "the cap. After every operation: each indexed file appears once, in the innermost shared directory, and the "
+    "the cap. Every query is also delivered as a FileSearch message to a real SearchManager: the recorded "
+    "PeerSearchReply (results + locked results) holds no duplicate, nothing outside MAY, nothing that is not on "
+    "disk, all of MUST when the recorded result_count is below the cap, and at least result_count minus the "
+    "vanished candidates. After every operation: each indexed file appears once, in the innermost shared directory, and the "
     "index equals the model; after every full scan additionally the index equals the shared files on disk and "
-    "get_stats() == (distinct directories holding an indexed file, indexed files). Non-trivial = some query has a "
+    "get_stats() and the SharedFoldersFiles message sent by scan() == (distinct directories holding an indexed file, "
+    "indexed files). Non-trivial = some query has a "
     "non-empty MUST set and (contains a wildcard, exclude or punctuated term, or the MUST set holds two twins, or "
     "the history has a nested/enclosing add or a removal next to another shared directory); distinct = distinct "
     "case document."
@@ -50,9 +55,16 @@ RULE = (
 ASSUMPTIONS = [
     "the temp file system (/dev/shm if writable, else the default temp dir) is case-sensitive and stores names "
     "without Unicode normalisation",
-    "alphabet restricted to characters that are alphanumeric, whose lower()/upper() are single code points and "
-    "round-trip (no dotted capital I, sharp s, long s, Kelvin sign, final sigma), so 'case-insensitively' has one "
-    "meaning; verified at import",
+    "alphabet: alphanumeric characters whose lower()/upper() are single code points and round-trip, plus (35% of the "
+    "cases) sharp s and its capital, sigma / final sigma / capital sigma, long s, the fi ligature and a few Greek "
+    "letters, where 'case-insensitively' has three readings (character-wise IGNORECASE equality, that AND equality "
+    "of str.lower() words = what the pinned tree does, full case folding): a file MUST be returned when the "
+    "pinned-tree reading and full case folding both say so and MAY be returned when the character-wise or the "
+    "case-folding reading says so; the character table is validated against the standard re module at import. "
+    "Dotted capital I and the Kelvin sign stay excluded",
+    "the reply a peer gets is observed through a real SearchManager (FileSearch message on the event bus, recorded "
+    "PeerSearchReply); files that cannot be stat-ed are omitted from it (documented in convert_items_to_file_data); "
+    "when the query was capped (result_count == max_results) only the length of the reply is bounded from below",
     "term syntax and matching algorithm as written in docs/source/SOULSEEK.rst (Searching / Query rules) and the "
     "docstrings of SharesManager.add_shared_directory / remove_shared_directory / query",
     "the library can only know the disk as of the last scan of a directory: files created, deleted or renamed "
@@ -75,7 +87,14 @@ ALNUM = set(_LOWER) | {c.upper() for c in _LOWER}
 for _c in ALNUM:
     assert _c.isalnum() and len(_c.lower()) == 1 and len(_c.upper()) == 1, _c
     assert _c.lower().upper().lower() == _c.lower() and _c.upper().lower().upper() == _c.upper(), _c
-NAME_CHARS = ALNUM | set(SEPS)
+# characters whose full case folding differs from their lower case, their case partners and the spellings they fold
+# to (sharp s / ss, final sigma / sigma, long s / s, fi ligature / fi) plus a few plain Greek letters.  Dotted capital
+# I stays excluded: its lower case is two code points, the second a combining mark that splits the word.
+_GREEK = "οδυεαιφ"
+FOLD_CHARS = set("ßẞςσΣſﬁ") | set(_GREEK) | {c.upper() for c in _GREEK}
+for _c in FOLD_CHARS:
+    assert _c.isalnum() and len(_c.lower()) == 1, _c
+NAME_CHARS = ALNUM | FOLD_CHARS | set(SEPS)
 TERM_CHARS = (NAME_CHARS - {' '}) | {'\\', '/', ','}
 
 VOCAB = [
@@ -83,11 +102,19 @@ VOCAB = [
     't', 'isn', 'mp3', 'p3', '3', 'flac', 'lac', '01', '1', '2001', '001', 'été', 'té', 'naïve', 'ïve', 've',
     '片仮名', '仮名', '名', '日本', '本', 'дом', 'ом', 'album', 'bum', 'live', 'ive', 'x', 'simple', 'band', 'and',
 ]
+# used in 35% of the cases, next to VOCAB
+FOLD_VOCAB = [
+    'straße', 'strasse', 'aße', 'asse', 'große', 'grosse', 'GROẞE', 'maß', 'mass', 'ß', 'ss', 's',
+    'σισυφος', 'συφος', 'συφοσ', 'ος', 'οσ', 'σ', 'ς', 'οδυσσεας', 'δυσσεασ', 'σεας',
+    'waſſer', 'wasser', 'ſer', 'ſ', 'ﬁle', 'file', 'ﬁ', 'fi', 'le',
+]
 EXTS = ['', '', '.mp3', '.mp3', '.flac', '.txt', '.MP3']
 
 
 def _case_variant(word, how):
-    how %= 4
+    how %= 5
+    if how == 4:
+        return word
     if how == 0:
         return word.lower()
     if how == 1:
@@ -149,18 +176,78 @@ def occurs(path_l, term_l, wildcard):
         start = i + 1
 
 
-def ref_match(path, parsed):
+# "case-insensitively", three readings (identical outside FOLD_CHARS):
+#  regex  - character by character: two characters are equal when their (single code point) lower cases are equal
+#           or are one of the pairs s/long s, sigma/final sigma (what an IGNORECASE regular expression does; the
+#           table is validated against the standard re module at import, not against the library)
+#  head   - regex reading AND every word of an include term (the leading word of a wildcard term: as a suffix) equals
+#           a word of str.lower() of the path (str.lower() writes a capital sigma at the end of a word as final sigma)
+#  folded - full case folding on both sides (sharp s = ss, fi ligature = fi, ...)
+# A file MUST be returned when it matches under head and folded, MAY be returned when it matches under regex or
+# folded.  head is what the pinned tree does: index keys are lower(), the matcher is IGNORECASE.
+_SAME = {'ſ': 's', 'ς': 'σ'}
+
+
+def fold_simple(text):
+    out = []
+    for ch in text:
+        low = ch.lower()
+        if len(low) != 1:
+            low = ch
+        out.append(_SAME.get(low, low))
+    return ''.join(out)
+
+
+def _selftest_fold():
+    import re
+    chars = sorted(ALNUM | FOLD_CHARS)
+    for pat in sorted({c.lower() for c in chars}):
+        rx = re.compile(re.escape(pat), re.IGNORECASE)
+        for ch in chars:
+            assert bool(rx.fullmatch(ch)) == (fold_simple(pat) == fold_simple(ch)), (pat, ch)
+            assert fold_simple(ch).isalnum() and ch.casefold().isalnum()
+
+
+_selftest_fold()
+
+
+def _predicate(path_s, inc, exc, wild):
+    return (all(occurs(path_s, t, False) for t in inc) and all(occurs(path_s, t, True) for t in wild)
+            and not any(occurs(path_s, t, False) for t in exc))
+
+
+def match_levels(path, parsed):
+    """-> (head, regex, folded) verdicts for one query path"""
     inc, exc, wild = parsed
-    p = path.lower()
-    return (all(occurs(p, t, False) for t in inc) and all(occurs(p, t, True) for t in wild)
-            and not any(occurs(p, t, False) for t in exc))
+    regex = _predicate(fold_simple(path), [fold_simple(t) for t in inc], [fold_simple(t) for t in exc],
+                       [fold_simple(t) for t in wild])
+    folded = _predicate(path.casefold(), [t.casefold() for t in inc], [t.casefold() for t in exc],
+                        [t.casefold() for t in wild])
+    head = regex
+    if head:
+        words = set(split_words(path.lower()))
+        for t in inc:
+            head = head and all(sub in words for sub in split_words(t))
+        for t in wild:
+            subs = split_words(t)
+            if t[:1].isalnum():
+                head = head and any(w.endswith(subs[0]) for w in words)
+                subs = subs[1:]
+            head = head and all(sub in words for sub in subs)
+    return head, regex, folded
+
+
+def ref_match(path, parsed):
+    """may the file be returned under some reading"""
+    _, regex, folded = match_levels(path, parsed)
+    return regex or folded
 
 
 # ---------------------------------------------------------------------------
 # strategy: one drawn integer seeds a deterministic builder (a composite strategy with ~150 draws per case costs
 # 19 ms/case in Hypothesis, four times the cost of running the case; the builder is a pure function of the draw)
 
-def _name(r, with_ext):
+def _name(r, with_ext, vocab=VOCAB):
     parts = []
     if r.randrange(8) == 0:
         parts.append(r.choice(['(', '[', "'", '_', '-', '&']))
@@ -171,8 +258,8 @@ def _name(r, with_ext):
         if r.randrange(6) == 0:
             word = ''.join(r.choice('aot1é名') for _ in range(r.randint(1, 3)))
         else:
-            word = r.choice(VOCAB)
-        parts.append(_case_variant(word, r.randrange(6)))
+            word = r.choice(vocab)
+        parts.append(_case_variant(word, r.randrange(7)))
     if r.randrange(8) == 0:
         parts.append(r.choice([')', ']', "'", '_', '&']))
     if with_ext:
@@ -236,7 +323,7 @@ def _term_text(r, kind, words, chunks):
                     text = text[:k] + r.choice(['_', '-', '.', "'", '/', '\\', ',']) + text[k + 1:]
     if not text:
         text = r.choice(['qqq', 'foox', 'xfoo', 'metals', '名名', 'fo', 'oo'])
-    return _case_variant(text, r.choice([0, 0, 1, 2, 3]))
+    return _case_variant(text, r.choice([0, 0, 1, 2, 3, 4, 4]))
 
 
 def _words_chunks(paths):
@@ -262,6 +349,12 @@ def build_case(seed):
     # suffix ends several words / the garbage collector runs after every removal
     avoid_multi = r.randrange(2) == 0
     run_gc = r.randrange(2) == 0
+    # 35% of the cases also use words with sharp s, final sigma, long s, the fi ligature and their counterparts
+    vocab = VOCAB + FOLD_VOCAB * 2 if r.randrange(100) < 35 else VOCAB
+
+    def name_(with_ext):
+        return _name(r, with_ext, vocab)
+
     # directory skeleton: index 0 = the root
     dir_specs = []
     dirs = [()]
@@ -281,18 +374,18 @@ def build_case(seed):
     twin_dirs = None
     if r.randrange(100) < 40:
         if r.randrange(3) == 0:                      # B nested in A (A = the root or a directory)
-            a = 0 if r.randrange(2) else add_dir(0, _name(r, False))
-            b = add_dir(a, _name(r, False))
+            a = 0 if r.randrange(2) else add_dir(0, name_(False))
+            b = add_dir(a, name_(False))
         else:                                        # siblings, sometimes below a common directory
-            top = 0 if r.randrange(3) else add_dir(0, _name(r, False))
-            a = add_dir(top, _name(r, False))
-            b = add_dir(top, _name(r, False))
+            top = 0 if r.randrange(3) else add_dir(0, name_(False))
+            a = add_dir(top, name_(False))
+            b = add_dir(top, name_(False))
         if a != b:
             twin_dirs = (a, b)
-            sub = _name(r, False) if r.randrange(2) else None
+            sub = name_(False) if r.randrange(2) else None
             sa, sb = (add_dir(a, sub), add_dir(b, sub)) if sub and len(dirs[b]) < 3 else (a, b)
             for j in range(r.choice([1, 1, 2, 3, 4])):
-                name = _name(r, True)
+                name = name_(True)
                 pa, pb = (sa, sb) if r.randrange(2) else (a, b)
                 twin_files.append([pa, name, j + 1])
                 # now and then the copy did not preserve the time stamp (control: no twin)
@@ -306,9 +399,9 @@ def build_case(seed):
             parent = len(dirs) - 1          # chains, so that three nested shares occur
         if len(dirs[parent]) >= 3:
             parent = 0
-        add_dir(parent, _name(r, False))
+        add_dir(parent, name_(False))
     nrandom = r.choice([1, 2, 3, 4, 6, 8, 12, 20, 30] if not twin_files else [0, 1, 2, 3, 4, 6, 8, 12, 20])
-    files.extend([r.randrange(len(dirs)), _name(r, True)] for _ in range(min(nrandom, 30 - len(files))))
+    files.extend([r.randrange(len(dirs)), name_(True)] for _ in range(min(nrandom, 30 - len(files))))
 
     # history; the generator follows the set of shared directories (same index arithmetic as run_case) so that
     # nested adds and removals next to another shared directory can be aimed at
@@ -367,11 +460,11 @@ def build_case(seed):
         elif name == 'update':
             op.update(k=r.randrange(len(sh)), mode=r.randrange(3))
         elif name == 'create':
-            op.update(d=r.randrange(len(dirs)), name=_name(r, True))
+            op.update(d=r.randrange(len(dirs)), name=name_(True))
         elif name in ('touch', 'delete'):
             op.update(f=r.randrange(41))
         elif name == 'rename':
-            op.update(f=r.randrange(41), d=r.randrange(len(dirs)), name=_name(r, True))
+            op.update(f=r.randrange(41), d=r.randrange(len(dirs)), name=name_(True))
         elif name == 'copy':
             op.update(f=r.randrange(41), d=r.randrange(len(dirs)))
         ops.append(op)
@@ -412,7 +505,9 @@ def build_case(seed):
             'max': r.choice([1, 1, 2, 3, 5, 100, r.randint(1, 100)]),
             'user': r.randrange(3) == 0,
         })
-    return {'dirs': dir_specs, 'files': files, 'ops': ops, 'queries': queries, 'gc': run_gc}
+    # 30% of the cases: some files vanish from disk after the history, before the queries (no rescan)
+    vanish = [r.randrange(41) for _ in range(r.choice([1, 1, 2, 3, 4]))] if r.randrange(100) < 30 else []
+    return {'dirs': dir_specs, 'files': files, 'ops': ops, 'vanish': vanish, 'queries': queries, 'gc': run_gc}
 
 
 def case_strategy():
@@ -457,6 +552,34 @@ def _features(parsed, punct):
 
 
 _SETTINGS = {}
+
+
+class _Recorder:
+    """stands in for the Network: records what would be sent"""
+
+    def __init__(self):
+        self.peer = []
+        self.server = []
+
+    async def send_peer_messages(self, username, *messages):
+        self.peer.append((username, messages))
+        return []
+
+    async def send_server_messages(self, *messages):
+        self.server.extend(messages)
+        return []
+
+
+class _UploadInfo:
+    def has_slots_free(self):
+        return True
+
+    def get_average_upload_speed(self):
+        return 0.0
+
+    def get_queue_size(self):
+        return 0
+
 _TMP_PARENT = '/dev/shm' if os.path.isdir('/dev/shm') and os.access('/dev/shm', os.W_OK) else None
 
 
@@ -508,8 +631,12 @@ def run_case(case) -> CaseResult:
     res = CaseResult()
     if not isinstance(case, dict):
         return res
-    from aioslsk.events import EventBus
+    from aioslsk.events import EventBus, MessageReceivedEvent, SessionInitializedEvent
     from aioslsk.exceptions import SharedDirectoryError
+    from aioslsk.protocol.messages import FileSearch, Login, PeerSearchReply, SharedFoldersFiles
+    from aioslsk.search.manager import SearchManager
+    from aioslsk.session import Session
+    from aioslsk.user.model import User
     from aioslsk.settings import CredentialsSettings, Settings
     from aioslsk.shares import manager as shares_manager_module
     from aioslsk.shares.manager import SharesManager
@@ -605,7 +732,15 @@ def run_case(case) -> CaseResult:
             if settings is None:
                 # one Settings object per process (building it costs 2 ms); only max_results is ever changed
                 settings = _SETTINGS['s'] = Settings(credentials=CredentialsSettings(username='me', password='pw'))
-            manager = SharesManager(settings, EventBus(), None)
+            # the reply a searching peer gets: real SearchManager on the same event bus, the network is a recorder
+            net = _Recorder()
+            event_bus = EventBus()
+            manager = SharesManager(settings, event_bus, net)
+            searches = SearchManager(settings, event_bus, manager, _UploadInfo(), net)
+            await event_bus.emit(SessionInitializedEvent(
+                Session(user=User('me'), ip_address='127.0.0.1', greeting='', client_version=157, minor_version=100),
+                Login.Response(success=True, greeting='', ip='127.0.0.1')))
+            net.server.clear()
 
             def lib_index():
                 """[(shared dir tuple, [file tuples])] read from the library, as strings only."""
@@ -661,6 +796,15 @@ def run_case(case) -> CaseResult:
                     if folders != exp_folders:
                         res.violate('C07/stats-folders',
                                     f'get_stats() folders={folders}, index holds files in {exp_folders} directories')
+                    # the counts reported to the server at the end of scan()
+                    reports = [m for m in net.server if isinstance(m, SharedFoldersFiles.Request)]
+                    if not reports:
+                        res.violate('C07/stats-not-reported', 'scan() sent no SharedFoldersFiles message')
+                    elif (reports[-1].shared_folder_count, reports[-1].shared_file_count) != (exp_folders, exp_files):
+                        res.violate('C07/stats-reported',
+                                    f'reported to the server: folders={reports[-1].shared_folder_count} '
+                                    f'files={reports[-1].shared_file_count}, index holds {exp_folders}/{exp_files}')
+                net.server.clear()
 
             def note_twins():
                 """indexed files of different shared directories with the same relative path and time stamp"""
@@ -836,8 +980,27 @@ def run_case(case) -> CaseResult:
             if run_gc:
                 collect()
 
+            # files that vanish from disk between the last operation and the queries (no rescan)
+            for v in (case.get('vanish') or [])[:4]:
+                fl = sorted(model.disk)
+                if fl:
+                    f = fl[_int(v) % len(fl)]
+                    os.unlink(apath(f))
+                    model.disk.discard(f)
+                    if f in model.known:
+                        hist.add('indexed-file-vanished-before-query')
+
+            # remote path (as sent to peers) -> file, for everything in the index
+            remote = {}
+            for sd in manager.shared_directories:
+                for it in sd.items:
+                    remote.setdefault(it.get_remote_path(), set()).add(
+                        to_tuple(os.path.normpath(it.get_absolute_path())) or ('?',))
+            it = sd = None
+
             # ---- queries ---------------------------------------------------------
             nontrivial = False
+            ticket = 0
             # words the library has seen: paths relative to the scanning directory, incl. dropped items
             indexed_words = set()
             for f, (scan_root, _) in model.known.items():
@@ -882,11 +1045,11 @@ def run_case(case) -> CaseResult:
                         readings = {'\\'.join(f[len(owner):])}
                         if f in model.known:
                             readings.add('\\'.join(f[len(model.known[f][0]):]))
-                        verdicts = [ref_match(p, parsed) for p in sorted(readings)]
-                        if any(verdicts):
+                        levels = [match_levels(p, parsed) for p in sorted(readings)]
+                        if any(regex or folded for _, regex, folded in levels):
                             may.add(f)
-                            if all(verdicts) and f in model.known and f in model.disk \
-                                    and f not in state['diverged']:
+                            if all(head and folded for head, _, folded in levels) and f in model.known \
+                                    and f in model.disk and f not in state['diverged']:
                                 must.add(f)
                     may |= state['diverged']     # already reported at index level: free here
 
@@ -902,6 +1065,11 @@ def run_case(case) -> CaseResult:
                     continue
 
                 feat = _features(parsed, punct)
+                fold_sensitive = any(t.casefold() != t or fold_simple(t) != t for t in inc + exc_terms + wild)
+                if fold_sensitive:
+                    feat = 'fold-sensitive-term'      # one kind: lower case, IGNORECASE and case folding disagree
+                    labels.add('q:fold-sensitive-term')
+                flagged = set()
                 ctx = (f'query={qstring!r} max_results={max_results} shared={sorted(model.shared)} '
                        f'gc_after_remove={run_gc}')
                 got_set = set(got)
@@ -931,28 +1099,80 @@ def run_case(case) -> CaseResult:
                     else:
                         kind = 'C07/query-extra:not-shared'
                     res.violate(kind, f'returned {f}; {ctx}')
+                    flagged.add(f)
                 if len(got) < max_results:
                     for f in sorted(must - got_set):
+                        flagged.add(f)
                         kind = f'C07/query-missing:{feat}'
                         scan_root = model.known[f][0]
                         fwords = set(split_words('/'.join(f[len(scan_root):]).lower()))
-                        if f in model.zombies and '\\'.join(f[len(scan_root):]) in model.zombies[f] \
+                        if fold_sensitive:
+                            pass
+                        elif f in model.zombies and '\\'.join(f[len(scan_root):]) in model.zombies[f] \
                                 and model.gc_after_last_zombie:
                             # an equal item object of the removed directory was still in the weak term map when
                             # the file was scanned again; it shadowed the new item and has been collected since
                             kind = 'C07/stale-term-map-entry:missing:after-gc'
-                        for t in wild:
+                        for t in wild if not fold_sensitive else ():
                             lead = split_words(t)[0] if t[:1].isalnum() else ''
                             matching = {w for w in indexed_words if lead and w.endswith(lead)}
                             if len(matching) >= 2 and not matching <= fwords:
                                 kind = 'C07/query-missing:wildcard-suffix-of-several-words'
-                        if f in model.disk and \
+                        if not fold_sensitive and f in model.disk and \
                                 (f[len(scan_root):], os.stat(apath(f)).st_mtime) in state['twin_keys']:
                             # another shared directory holds (or held) a file with the same relative path and the
                             # same modification time: the two items are confused with each other
                             kind = 'C07/query-missing:same-relative-path-and-mtime-in-other-directory'
                         res.violate(kind, f'did not return {f} (path {chr(92).join(f[len(model.owner(f)):])!r}); '
                                           f'returned {sorted(got_set)[:4]}; {ctx}')
+
+                # ---- the reply a peer gets for the same query (SearchManager -> PeerSearchReply) -------------
+                ticket += 1
+                net.peer.clear()
+                n_received = len(searches.received_searches)
+                await event_bus.emit(MessageReceivedEvent(
+                    message=FileSearch.Response(username='stranger', ticket=ticket, query=qstring), connection=None))
+                await simloop.step(3)
+                replies = [m for _, msgs in net.peer for m in msgs if isinstance(m, PeerSearchReply.Request)]
+                result_count = searches.received_searches[-1].result_count \
+                    if len(searches.received_searches) > n_received else None
+                if len(replies) > 1 or any(m.ticket != ticket for m in replies):
+                    res.violate('C07/reply-count-or-ticket', f'{len(replies)} replies; {ctx}')
+                names = [fd.filename for m in replies[:1] for fd in list(m.results) + list(m.locked_results or [])]
+                if any(len(remote.get(n, ())) > 1 for n in names):
+                    labels.add('q:reply-ambiguous-alias')     # two shared directories with the same alias: skip
+                elif result_count is None:
+                    res.violate('C07/reply-no-search-recorded', f'the search was not processed; {ctx}')
+                else:
+                    unknown = [n for n in names if n not in remote]
+                    rfiles = [next(iter(remote[n])) for n in names if n in remote]
+                    rset = set(rfiles)
+                    vanished = {f for f in may if f not in model.disk}
+                    if unknown:
+                        res.violate('C07/reply-extra:not-indexed', f'{unknown[:3]} in the reply; {ctx}')
+                    if len(rfiles) != len(rset):
+                        res.violate('C07/reply-duplicate', f'{sorted(f for f in rset if rfiles.count(f) > 1)[:3]}; {ctx}')
+                    if len(names) > max_results:
+                        res.violate('C07/reply-over-cap', f'{len(names)} files; {ctx}')
+                    for f in sorted(rset - may - flagged):
+                        res.violate(f'C07/reply-extra:not-matching:{feat}', f'reply holds {f}; {ctx}')
+                    for f in sorted((rset & may) - model.disk):
+                        res.violate('C07/reply-extra:not-on-disk', f'reply holds {f}; {ctx}')
+                    why = 'with-vanished-file-in-results' if vanished else feat
+                    if result_count < max_results:
+                        # nothing was capped: every file that matches, is indexed and exists is in the reply
+                        for f in sorted(must - rset - flagged):     # flagged: already reported for query()
+                            res.violate(f'C07/reply-missing:{why}',
+                                        f'reply lacks {f}; reply={sorted(rset)[:4]} result_count={result_count} '
+                                        f'vanished={sorted(vanished)[:3]}; {ctx}')
+                    if len(names) < result_count - len(vanished):
+                        res.violate(f'C07/reply-shorter-than-results-on-disk:{why}',
+                                    f'{result_count} results, at most {len(vanished)} of them not on disk, reply '
+                                    f'holds {len(names)}; {ctx}')
+                    if names:
+                        labels.add('q:reply-nonempty')
+                        if vanished:
+                            labels.add('q:reply-nonempty+vanished-candidate')
 
                 # labels / non-triviality
                 twins_in_must = len({twin_of[f] for f in must if f in twin_of}) < sum(1 for f in must if f in twin_of)
@@ -1015,8 +1235,9 @@ MANIFEST_ENTRY = {
                  'share histories, generated queries; differential against an independent scanning matcher',
     'level_text': 'Generated-input exploration of the real SharesManager on a temp directory: after every operation '
                   'the index is compared with a reference model of the shares (exactly once, innermost directory), '
-                  'after every full scan with the disk and get_stats(), and every query result with a set '
-                  'comprehension over the model using a matcher written from the documented query rules. Sampled '
+                  'after every full scan with the disk, get_stats() and the counts reported to the server, and every '
+                  'query result -- from query() and from the PeerSearchReply a real SearchManager sends for it -- with '
+                  'a set comprehension over the model using a matcher written from the documented query rules. Sampled '
                   'trees, histories and queries; no proof.',
     'level_note': 'Trusted base: the reference model and matcher in checks/c07.py (written from the property text, '
                   'docs/source/SOULSEEK.rst "Query rules" and the SharesManager docstrings), the local file system, '
